@@ -53,6 +53,7 @@ func main() {
 	sampleEvery := flag.Int("sample-every", 0, "emit the full case every n cases")
 	printCase := flag.Bool("print", false, "print generated cases only")
 	info := flag.Bool("info", false, "print case count and batch size")
+	phase := flag.String("phase", "", "\"race\": the property's extra rounds for the race-detector build")
 	flag.Parse()
 
 	if *info {
@@ -65,7 +66,11 @@ func main() {
 		if rp, ok := p.(interface{ Race() bool }); ok {
 			race = rp.Race()
 		}
-		b, _ := json.Marshal(map[string]any{"N": p.NumCases(*tier), "Batch": p.BatchSize(), "Rule": p.Rule(), "Race": race})
+		raceN := 0
+		if rp, ok := p.(interface{ RaceCases(string) int }); ok {
+			raceN = rp.RaceCases(*tier)
+		}
+		b, _ := json.Marshal(map[string]any{"N": p.NumCases(*tier), "Batch": p.BatchSize(), "Rule": p.Rule(), "Race": race, "RaceN": raceN})
 		fmt.Println(string(b))
 		return
 	}
@@ -121,7 +126,14 @@ func main() {
 		os.Exit(3)
 	}
 	for i := *from; i < *to; i++ {
-		c := p.Gen(*seed, *tier, i)
+		var c h.Case
+		if *phase == "race" {
+			c = p.(interface {
+				GenRace(uint64, string, int) h.Case
+			}).GenRace(*seed, *tier, i)
+		} else {
+			c = p.Gen(*seed, *tier, i)
+		}
 		if *printCase {
 			b, _ := json.Marshal(c)
 			fmt.Println(string(b))
